@@ -122,7 +122,39 @@ pub fn exec_repro(ops: Vec<Op>, rules: Vec<usize>, iters: usize, seed: u64, seco
                 .unwrap()
         })
         .collect();
-    let results: Vec<Result<String, String>> = replicas.into_iter().map(|h| h.join().unwrap_or(Err("thread-died".into()))).collect();
+    let mut results: Vec<Result<String, String>> = replicas.into_iter().map(|h| h.join().unwrap_or(Err("thread-died".into()))).collect();
+    // one more replica *after* an unrelated e-graph of a very different size has been built (and dropped) in another
+    // thread: nothing another e-graph did earlier in the process may show in a transcript
+    {
+        let big = [40usize, 150, 600, 2500][(seed % 4) as usize];
+        let _ = std::thread::Builder::new()
+            .stack_size(64 << 20)
+            .spawn(move || {
+                let _ = guarded(move || {
+                    let mut eg: EGraph<Main> = EGraph::default();
+                    for i in 0..big {
+                        let t = ATerm { v: 13, fields: vec![CField::App], children: vec![ATerm { v: 15, fields: vec![CField::Lit(i.to_string())], children: vec![] }] };
+                        eg.add_expr(to_recexpr::<Main>(&t));
+                    }
+                    eg.total_number_of_nodes()
+                });
+            })
+            .unwrap()
+            .join();
+        let (o, r) = (ops.clone(), rules.clone());
+        let late = std::thread::Builder::new()
+            .stack_size(64 << 20)
+            .spawn(move || {
+                guarded(move || {
+                    intern_names();
+                    transcript(&o, &r, iters)
+                })
+            })
+            .unwrap()
+            .join()
+            .unwrap_or(Err("thread-died".into()));
+        results.push(late);
+    }
     stop.store(true, std::sync::atomic::Ordering::Relaxed);
     for h in noise_threads {
         let _ = h.join();
